@@ -528,7 +528,8 @@ def rule_c11_best_states(prog: Program, col: Collector) -> None:
         same_guard = [f[:3] for f in e.ctx] == [f[:3] for f in vstore[0].ctx]
         col.check(same_guard, ref.where(e.node), ref.short, "values and actions are replaced under the same condition", construct="best-same-guard",
                   necessity="a set reported with another set's gaps is not a set attaining them")
-    kw = samp[0].kwargs
+    from .common import bound_args
+    kw = bound_args(prog, samp[0])
     pr = ref.positional_params()
     col.check(kw.get("max_size") == ("param", pr[1]) and kw.get("samples") == ("param", pr[2]), ref.where(samp[0].node), ref.short,
               "sampling uses max_size=max_steps and samples=repetitions", construct="best-sampling-args", necessity="the search must enumerate sets up to the requested size and sample the requested number of games")
